@@ -187,7 +187,11 @@ func (s *v4sys) Ops() []string {
 		if s.pseudo(n) {
 			continue
 		}
+		// RELEASE naming an address that is not the sender's (with or without a lease of its own)
+		add("RELEASE-gw")
+		add("RELEASE-out")
 		if s.otherAddr(n) != "" {
+			add("RELEASE-other")
 			add("REQ-other")
 			add("DECLINE-other")
 		}
@@ -320,6 +324,10 @@ func (s *v4sys) msg(n, kind, circuit string) string {
 		m.Type, target = dhcpv4.MessageTypeRelease, v.leased
 		m.CIAddr = net.ParseIP(target)
 		m.ServerID = s.d.ServerIP()
+	case "RELEASE-other", "RELEASE-gw", "RELEASE-out":
+		m.Type, m.ServerID = dhcpv4.MessageTypeRelease, s.d.ServerIP()
+		target = map[string]string{"RELEASE-other": s.otherAddr(n), "RELEASE-gw": v4Gw, "RELEASE-out": v4Outside}[kind]
+		m.CIAddr = net.ParseIP(target)
 	case "DECLINE-mine":
 		m.Type, target = dhcpv4.MessageTypeDecline, v.leased
 		m.ServerID = s.d.ServerIP()
@@ -447,9 +455,14 @@ func (s *v4sys) msg(n, kind, circuit string) string {
 			s.v("O4-renew-refused", site, "%s asked for its own unexpired lease %s and was answered %v", n, target, obs)
 		}
 	case dhcpv4.MessageTypeRelease:
-		v.leased, v.offer, v.bound = "", "", ""
-		delete(v.pinned, target)
-		delete(s.offers, n+"/"+target)
+		// A client that sends RELEASE gives up its own binding whatever ciaddr says (the server keys
+		// RELEASE by chaddr); it never affects anybody else's lease, offer or reservation.
+		v.leased, v.bound = "", ""
+		if kind == "RELEASE" {
+			v.offer = ""
+			delete(v.pinned, target)
+			delete(s.offers, n+"/"+target)
+		}
 	case dhcpv4.MessageTypeDecline:
 		// A DECLINE has standing only if the sender holds the lease on the address it names
 		// (whatever symbolic op produced it); then the address is retired for the horizon.
